@@ -15,7 +15,8 @@
      CloseLock   close() holds the queue mutex while it stores `closed`
      WakeOnError a failing worker sends a wake-up message after storing its error
      EofIsError  end of input instead of the 0x00 terminator is an error (LZMA2 only)
-   With all three TRUE the properties below hold; each FALSE re-creates a defect of the pinned
+     PanicGuard  a worker that panics reports it through a drop guard (error path without the `active` decrement)
+   With all four TRUE the properties below hold; each FALSE re-creates a defect of the pinned
    tree (lost wake-up / coordinator hang on worker error / hang on empty or unterminated input). *)
 EXTENDS Naturals, Sequences, FiniteSets, TLC
 
@@ -28,7 +29,7 @@ CONSTANTS Kind,          \* "lzma2" | "lzip"
           PanicUnits,    \* unit sequence numbers at which the worker panics (fail point)
           EmptyUnits,    \* unit sequence numbers that decode to zero bytes (empty LZIP members)
           DropAfter,     \* 99: drop only after end / error; k: caller drops after k chunks were returned
-          CloseLock, WakeOnError, EofIsError
+          CloseLock, WakeOnError, EofIsError, PanicGuard
 
 Workers == 1..MaxWorkers
 NoneV == 99
@@ -270,7 +271,10 @@ WWake(w) ==       \* CvWake: notified and Q free: re-acquire, loop: pop attempt 
   /\ W[w].pc = "sleep" /\ w \in Q.notified /\ Q.owner = 0 /\ PopOrCheck(w) /\ UNCHANGED <<CH, SH, C>>
 WInc(w) ==        \* AAdd(active, +1); the decode itself touches no runtime object
   /\ W[w].pc = "inc" /\ SH' = [SH EXCEPT !.active = @ + 1]
-  /\ W' = WGo(w, CASE IsPanic(W[w].item) -> "dropTx" [] IsBad(W[w].item) -> "decErr" [] OTHER -> "send")
+  \* a panic unwinds the worker: with the panic guard its Drop runs the error path (without the decrement of
+  \* `active`); without it the thread just drops its Sender and is gone
+  /\ W' = WGo(w, CASE IsPanic(W[w].item) -> (IF PanicGuard THEN "esLock" ELSE "dropTx")
+                    [] IsBad(W[w].item) -> "decErr" [] OTHER -> "send")
   /\ UNCHANGED <<Q, CH, C>>
 WSend(w) ==       \* Send(CH)
   /\ W[w].pc = "send"
